@@ -100,7 +100,7 @@ class OracleTracker(Monitor):
             return
         # after a failure the definition prescribes no further scheduling, but completions of
         # still-running actions are followed so that documented clean-up tasks are known
-        new = env.orc.complete(act.task, act.due.ctx, ok, bits, tokens)
+        new = env.orc.complete(act.task, act.due.ctx, ok, bits, tokens, act.due.inst)
         # (entries that become due after the workflow stopped are kept: they are "work still due")
         env.due.extend(new)
         if env.orc.failed:
@@ -128,7 +128,8 @@ class C01Justified(Monitor):
             )
         st = env.status()
         if st in (S.RUNNING, S.RESUMING) and not env.orc.failed and not env.orc_stopped:
-            lost = [d for d in env.due if not d.matched]
+            on_offer_now = {t["id"] for t in env.last_offer}
+            lost = [d for d in env.due if not d.matched and d.task not in on_offer_now]
             if lost:
                 self.fail(
                     env,
